@@ -168,7 +168,28 @@ func runC07(r *simkit.Run) {
 		stallLen = c.Range(2, int(L)+3, "stall-blocks")
 		r.Eventf("%s stalls for %d blocks from block %d of the key generation", honest[stallNode].name, stallLen, stallFrom)
 	}
+	// a keyper process is killed between two blocks and restarted at once (only committed
+	// database state survives): what the handlers did with a block's events must be in that
+	// block's commit. (Crash points inside a block's processing are C08's subject.)
+	restartNode, restartAtBlk := -1, 0
+	if c.Chance(300, "restart-a-keyper") {
+		restartNode = c.Intn(len(honest), "restarted-keyper")
+		restartAtBlk = c.Range(1, int(3*L)+2, "restart-at-block")
+	}
 	for blk := 0; blk < int(8*L)+40 && !done; blk++ {
+		if restartNode >= 0 && blk == restartAtBlk && stallNode != restartNode {
+			nd := honest[restartNode]
+			w.crash(nd)
+			for i := 0; i < 20 && nd.running; i++ {
+				w.settle(200 * time.Millisecond)
+			}
+			if nd.running {
+				r.InfraFail("crashed keyper %s does not stop", nd.name)
+			}
+			w.restart(nd)
+			w.settle(time.Second)
+			r.Probe("keyper-restarted-between-blocks")
+		}
 		if stallNode >= 0 {
 			on := blk >= stallFrom && blk < stallFrom+stallLen
 			if on && !w.stalled[honest[stallNode].name] {
@@ -212,7 +233,7 @@ func runC07(r *simkit.Run) {
 	if inPhase {
 		r.Probe("honest-messages-in-phase")
 	}
-	if nbyz == 0 && inPhase && succ != len(honest) {
+	if nbyz == 0 && inPhase && succ != len(honest) && r.Faults["crash"] == 0 {
 		r.Fail("honest-dkg-failed", "success", "all keypers are honest, every DKG message landed inside its phase and no fault was injected, but only %d of %d report success", succ, len(honest))
 	}
 	if nbyz > 0 {
